@@ -106,7 +106,8 @@ def gen_content(rng, max_images=8, unique=True):
                 seen.add((src["subvariant"], src["type"], src["format"], src["arch"], src["disc_number"], src["unified"], tuple(src["additional_variants"])))
                 K["imgs"].append(t)
     variants = subset(rng, VARIANTS, 1, 3)
-    cell_arches = pools.ARCHES if rng.random() < 0.8 else pools.ARCHES + ["noarch", "ia64", "riscv64", "loongarch64", "armv7hl", "amd64", "arm64"]
+    cell_arches = pools.ARCHES if rng.random() < 0.8 else pools.ARCHES + ["noarch", "ia64", "riscv64", "loongarch64", "armv7hl", "amd64", "arm64"] + \
+        [pick(rng, [a for a in pools.RPM_ARCHES_DOC if a not in ("src", "nosrc")])]
     for i, img in enumerate(K["imgs"]):
         ncells = rng.choice([1, 1, 1, 2, 3])
         for _ in range(ncells):
